@@ -182,13 +182,24 @@ def mk(op, a, b=None, ctx=DEFAULT):
     return (op, a, b)
 
 
+# set by the evaluator while it runs with Config.fold_inexact (all inputs literal: the program's own
+# floating-point arithmetic is being evaluated)
+FOLD_INEXACT = [False]
+
+
 def fn(name, *args):
     if all(isinstance(a, tuple) and a and a[0] == "lit" for a in args if isinstance(a, tuple)):
         vals = [litval(a) if isinstance(a, tuple) else a for a in args]
         try:
             if name == "sqrt":
                 v = vals[0]
-                return lit(math.sqrt(v) if v >= 0 else float("nan")) if not math.isnan(v) else NAN
+                if math.isnan(v) or v < 0:
+                    return NAN
+                r = math.sqrt(v)
+                from fractions import Fraction
+                if r == float("inf") or Fraction(r) * Fraction(r) == Fraction(v) or FOLD_INEXACT[0]:
+                    return lit(r)
+                return ("fn", name) + tuple(args)
             if name == "abs":
                 return lit(abs(vals[0]))
             if name == "ceil" and math.isfinite(vals[0]):
@@ -215,7 +226,11 @@ def fn(name, *args):
                     return lit(a)
                 return lit(max(a, b))
             if name == "powi" and isinstance(vals[1], int):
-                return lit(vals[0] ** vals[1])
+                from fractions import Fraction
+                r = vals[0] ** vals[1]
+                if (vals[1] >= 0 and abs(r) != float("inf") and Fraction(r) == Fraction(vals[0]) ** vals[1]) or FOLD_INEXACT[0]:
+                    return lit(r)
+                return ("fn", name) + tuple(args)
         except (OverflowError, ValueError):
             pass
     return ("fn", name) + tuple(args)
